@@ -20,7 +20,7 @@ CORE = ['C', 'CC', 'C=C', 'C#C', 'CO', 'C=O', 'CCO', 'CC=O', 'C1CC1', 'C1CO1',
         'c1ccccc1', 'Cc1ccccc1', 'c1ccoc1', 'C([Pt])C[Pt]', '[Pt]C([Pt])=O',
         'C1CC2CC12', 'C12CC1C2', 'C1CCC1', 'OCC=C', 'C=CC=C', '[CH2]C=C', 'O',
         '[H][H]', '[H]', 'N', 'C[N+](C)(C)C', 'C1CC1C1CC1', '[O]C[O]', '[C]',
-        'C=[C]']
+        'C=[C]', 'C1CC2CCC12', 'C1CCC2CCC2C1', 'C1CC12CCC2', 'C1CC2CCCC12']
 EXTRA = ['C1CCCCC1', 'C1CCC2CCCCC2C1', 'c1ccc2ccccc2c1', r'C/C=C\C', 'C/C=C/C',
          'C[N+](=O)[O-]', '[C-]#[O+]', 'C([Ru])C[Ru]', 'O=C=O', 'C1=CC=CC1',
          'OO', 'C1OC1C', '[CH2]O[CH2]', 'C[C]C', 'c1ccncc1']
